@@ -84,6 +84,7 @@ pub fn child_main(args: &[String]) {
             let _ = flw::execute(&mut ctx, &lines);
         }
         Some("recurse") => robust::child_recurse(&args[1..]),
+        Some("concstd") => conc::child_concstd(&args[1..]),
         _ => {
             eprintln!("unknown child mode");
             std::process::exit(2);
